@@ -36,7 +36,7 @@ def _space(n, radix, off):
     return (np.stack(cols, axis=1) + off).astype(np.int32), radix
 
 
-def make_problem(nxt, rew, prob, v0=None, pol0=None, enc=None, prob_as_array=False, name="tab"):
+def make_problem(nxt, rew, prob, v0=None, pol0=None, enc=None, prob_as_array=False, name="tab", oob_zero_prob=False):
     """Build the Problem (imports jax lazily so that worker env is set first)."""
     import jax.numpy as jnp
     from mdpax.core.problem import Problem
@@ -44,6 +44,11 @@ def make_problem(nxt, rew, prob, v0=None, pol0=None, enc=None, prob_as_array=Fal
     enc = enc or Enc()
     nxt_np = np.asarray(nxt, dtype=np.int32)
     S, A, E = nxt_np.shape
+    if oob_zero_prob:
+        # a problem may report ANY successor for an event of probability zero: send those to the
+        # vector (S,), whose (unclipped) index S lies outside the state space
+        assert enc.s is None and enc.s_off == 0, "oob_zero_prob needs the plain state encoding"
+        nxt_np = np.where(np.asarray(prob) == 0, S, nxt_np).astype(np.int32)
     sp_s, rs = _space(S, enc.s, enc.s_off)
     sp_a, ra = _space(A, enc.a, enc.a_off)
     sp_e, re_ = _space(E, enc.e, enc.e_off)
@@ -53,7 +58,7 @@ def make_problem(nxt, rew, prob, v0=None, pol0=None, enc=None, prob_as_array=Fal
             self._nxt = jnp.array(nxt_np)
             self._rew = jnp.array(np.asarray(rew, dtype=np.float64))
             self._prob = jnp.array(np.asarray(prob, dtype=np.float64))
-            self._enc_states = jnp.array(sp_s)
+            self._enc_states = jnp.array(np.vstack([sp_s, np.full((1, sp_s.shape[1]), S, dtype=np.int32)]) if oob_zero_prob else sp_s)
             self._v0 = None if v0 is None else jnp.array(np.asarray(v0, dtype=np.float64))
             self._pol0 = None if pol0 is None else jnp.array(np.asarray(pol0, dtype=np.int32))
             self._acts = jnp.array(sp_a)
@@ -82,6 +87,8 @@ def make_problem(nxt, rew, prob, v0=None, pol0=None, enc=None, prob_as_array=Fal
             return jnp.clip(jnp.ravel_multi_index(tuple(e - enc.e_off), re_, mode="clip"), 0, E - 1)
 
         def state_to_index(self, s):
+            if oob_zero_prob:
+                return s[0]  # no clipping: the index of the non-state (S,) is S
             return self._si(s)
 
         def random_event_probability(self, s, a, e):
